@@ -97,6 +97,11 @@ pub fn gen_conc(prop: &PropDef, seed: u64, tier: &str) -> RunSpec {
     let mut r = crate::rng::Rng::new(seed);
     let mut p = (prop.profile)();
     p.blob = crate::gen::Tri::Maybe;
+    if prop.id == "C14" {
+        // C14 under schedules: every run has an ingester thread (standard trees only, own key
+        // class) next to a writer that also rotates, a flusher, compactors and readers
+        p.blob = crate::gen::Tri::Never;
+    }
     let mut cfg = crate::gen::gen_cfg(&mut r, &p);
     cfg.filter_fn = None;
     let nkeys = 3 + r.usize(8);
@@ -236,7 +241,9 @@ pub fn gen_conc(prop: &PropDef, seed: u64, tier: &str) -> RunSpec {
     // ingested tables is ordered *before* the ingestion by its seqno but *above* it in read
     // order, which is outside every listed property (they quantify over sequential ingestion).
     let mut ikeys: Vec<Bytes> = Vec::new();
-    if prop.id == "C02" && cfg.blob.is_none() && r.chance(2, 3) {
+    if (prop.id == "C02" && cfg.blob.is_none() && r.chance(2, 3))
+        || (prop.id == "C14" && cfg.blob.is_none())
+    {
         ikeys = (0..4 + r.usize(4)).map(|i| Bytes(format!("i{i:02}").into_bytes())).collect();
         let mut a = Vec::new();
         for _ in 0..(1 + r.usize(3)) * scale {
